@@ -273,7 +273,13 @@ class C16(Sim):
                 if rr < 0.75:
                     ops.append({"op": "restore_rule", "b": bi, "r": ri})
                     ops.append({"op": "process", "row": S.draw_row(rng, sp, 0.1)})
-            elif r < 0.46:
+            elif r < 0.42:
+                if rng.random() < 0.6:
+                    mut = {"listed": rng.choice(LISTED), "seed": rng.randrange(1 << 30)}
+                else:
+                    mut = {"generic": rng.choice(GENERIC), "seed": rng.randrange(1 << 30), "times": rng.choice([1, 1, 2])}
+                ops.append({"op": "fresh_rule", "b": bi, "r": ri, "mut": mut, "via": rng.choice(["create", "importer", "importer_block"])})
+            elif r < 0.47:
                 ops.append({"op": "reload", "b": bi, "plain": rng.random() < 0.4})
             elif r < 0.52:
                 ops.append({"op": "restart"})
@@ -432,6 +438,65 @@ class C16(Sim):
                                 v = Violation("accepted_rule_cannot_be_evaluated", i, text=text, exception=type(ex).__name__, message=str(ex)[:120])
                 if v is None and all_rule_snaps(skip=(bi, ri)) != others:
                     v = Violation("loading_one_rule_changed_another", i, text=text)
+            elif k == "fresh_rule":
+                # other public entry points for rule text: Rule.create, FllImporter.rule, FllImporter.rule_block
+                bi = op["b"] % len(E.rule_blocks)
+                ri = op["r"] % len(E.rule_blocks[bi].rules)
+                rspec = sp["blocks"][bi]["rules"][ri]
+                mut = op["mut"]
+                mr = _random.Random(mut["seed"])
+                listed = None
+                if "listed" in mut:
+                    words = inject_listed(mr, rspec, mut["listed"])
+                    if words is None:
+                        continue
+                    listed = mut["listed"]
+                    st.hit("faults.fresh_" + listed)
+                else:
+                    words = orig_text[(bi, ri)].split()
+                    for _ in range(mut.get("times", 1)):
+                        words = mutate_generic(mr, words, mut["generic"])
+                    st.hit("faults.fresh_generic_" + mut["generic"])
+                text = " ".join(words)
+                others = all_rule_snaps()
+                exc = None
+                made = []
+                try:
+                    if op["via"] == "create":
+                        made = [fl.Rule.create(text, E)]
+                    elif op["via"] == "importer":
+                        made = [fl.FllImporter().rule("rule: " + text, E)]
+                    else:
+                        made = list(fl.FllImporter().rule_block("RuleBlock: x\n  enabled: true\n  rule: " + text, E).rules)
+                except BaseException as ex:  # noqa: BLE001
+                    if not isinstance(ex, Exception):
+                        raise
+                    exc = ex
+                outcome = "accepted" if exc is None else classify(exc)
+                st.hit(f"outcomes.fresh_rule_{outcome}")
+                emit(f"{i} fresh_rule via={op['via']} text={text!r} -> {outcome} {type(exc).__name__ if exc else ''}")
+                sig.append(f"N{op['via'][0]}{outcome[0]}")
+                if outcome == "internal":
+                    v = Violation("internal_error_on_rule_text", i, exception=type(exc).__name__, message=str(exc)[:160], via=op["via"], text=text)
+                elif outcome == "accepted":
+                    if listed is not None and "#" not in text:
+                        v = Violation("rule_with_listed_error_accepted", i, error_class=listed, text=text, via=op["via"])
+                    else:
+                        for r2 in made:
+                            if r2 is None:
+                                continue
+                            if not r2.is_loaded():
+                                v = Violation("accepted_rule_is_not_loaded", i, text=text, via=op["via"])
+                                break
+                            try:
+                                r2.activate_with(E.rule_blocks[bi].conjunction, E.rule_blocks[bi].disjunction)
+                            except (ValueError, RuntimeError):
+                                pass
+                            except Exception as ex:
+                                v = Violation("accepted_rule_cannot_be_evaluated", i, text=text, exception=type(ex).__name__, via=op["via"])
+                                break
+                if v is None and all_rule_snaps() != others:
+                    v = Violation("loading_one_rule_changed_another", i, text=text, via=op["via"])
             elif k in ("reload", "restart"):
                 bad = sorted(corrupted)
                 if k == "reload":
